@@ -229,7 +229,12 @@ func c06RunCase(run *vfRun, base string, c c06Case) {
 	}
 	cfg := Config{Timeout: time.Minute, TimeBetweenDKGPhases: c06PhaseTimeout, KickoffGracePeriod: c06Kickoff}
 	nw := vfdNewNet(dir, c.BeaconID, sch, cfg, c.Seed)
-	defer nw.closeAll()
+	defer func() {
+		if blocked := nw.closeAll(); len(blocked) > 0 {
+			run.Count("nodes_whose_close_blocked", int64(len(blocked)))
+			run.Note(fmt.Sprintf("case %d: Process.Close() blocked on %v; blocked frame: %s", c.Index, blocked, vfdBlockedFrame("passToApplication", 700)))
+		}
+	}()
 	nw.setSched(c.Sched)
 	x := &c06Ctx{run: run, c: c, net: nw, rng: vfNewRng(c.Seed ^ 0xc06)}
 	keyRng := vfNewRng(c.Seed ^ 0x6b6579)
